@@ -473,6 +473,27 @@ let step o i s =
      | RdUnbound -> Err s
      | RdStuck w -> Stuck w)
 
+(** val loop_on :
+    orc -> nat -> nat -> nat -> (state -> result) -> nat -> state -> result **)
+
+let rec loop_on o it d x body n0 s =
+  match n0 with
+  | O -> Fuel
+  | S n' ->
+    (match step o (INext (d, it)) s with
+     | Norm s1 ->
+       if s1.flag
+       then (match step o (ISetLoc (x, (RTmp d))) s1 with
+             | Norm s2 ->
+               (match body s2 with
+                | Norm s3 -> loop_on o it d x body n' s3
+                | Brk s3 -> step o (IDecref it) s3
+                | Cnt s3 -> loop_on o it d x body n' s3
+                | x0 -> x0)
+             | x0 -> x0)
+       else step o (IDecref it) s1
+     | x0 -> x0)
+
 (** val exec : orc -> nat -> code -> state -> result **)
 
 let rec exec o fuel c s =
@@ -481,25 +502,7 @@ let rec exec o fuel c s =
   | CI i -> step o i s
   | CSeq (c1, c2) -> bind (exec o fuel c1 s) (exec o fuel c2)
   | CIf (c1, c2) -> if s.flag then exec o fuel c1 s else exec o fuel c2 s
-  | CLoop (it, d, x, body) ->
-    let rec loop n0 s0 =
-      match n0 with
-      | O -> Fuel
-      | S n' ->
-        (match step o (INext (d, it)) s0 with
-         | Norm s1 ->
-           if s1.flag
-           then (match step o (ISetLoc (x, (RTmp d))) s1 with
-                 | Norm s2 ->
-                   (match exec o fuel body s2 with
-                    | Norm s3 -> loop n' s3
-                    | Brk s3 -> step o (IDecref it) s3
-                    | Cnt s3 -> loop n' s3
-                    | x0 -> x0)
-                 | x0 -> x0)
-           else step o (IDecref it) s1
-         | x0 -> x0)
-    in loop fuel s
+  | CLoop (it, d, x, body) -> loop_on o it d x (exec o fuel body) fuel s
   | CBreak -> Brk s
   | CContinue -> Cnt s
   | CReturn -> Ret s
